@@ -158,8 +158,8 @@ func candidate(g *hx.Gen, pw []byte) []byte {
 
 func gen(g *hx.Gen) {
 	r := g.R
-	nh := g.Count(400, 5000)
-	nm := g.Count(20000, 500000)
+	nh := g.Count(250, 5000)
+	nm := g.Count(8000, 500000)
 	if g.N > 0 {
 		nh, nm = g.N/10+1, g.N
 	}
@@ -233,7 +233,7 @@ func gen(g *hx.Gen) {
 		case 0, 1, 2, 3, 4: // single-byte mutation of a valid hash; positions 0..28 (header+salt) favoured
 			h = append([]byte(nil), base...)
 			p := r.Intn(len(h))
-			if r.Chance(2, 3) {
+			if r.Chance(5, 6) {
 				p = r.Intn(29)
 			}
 			v := byte(r.Intn(256))
@@ -285,6 +285,13 @@ func gen(g *hx.Gen) {
 		if r.Chance(1, 4) {
 			cpw = password(r)
 		}
+		// a syntactically valid hash with a large cost would make Compare run 2^cost rounds:
+		// such strings are only sent to Cost (op `cost`)
+		if c, err := bcrypt.Cost(h); err == nil && c > 6 {
+			g.Stat("op.cost-only")
+			g.Emit("cost hash=%s", hx.Hex(h))
+			continue
+		}
 		g.Emit("cmp hash=%s pw=%s", hx.Hex(h), hx.Hex(cpw))
 	}
 }
@@ -298,6 +305,15 @@ func exec(line string) string {
 			return class(err)
 		}
 		return "ok " + hx.Hex(h)
+	case "cost":
+		h := o.Hex("hash")
+		return "cost=" + hx.Catch(func() string {
+			c, err := bcrypt.Cost(h)
+			if err != nil {
+				return class(err)
+			}
+			return strconv.Itoa(c)
+		})
 	case "cmp":
 		h, pw := o.Hex("hash"), o.Hex("pw")
 		cs := hx.Catch(func() string {
